@@ -92,6 +92,7 @@ def _new_tabulate(ctx, m, fn, cls: str, absolute: bool) -> bool | None:
     import datetime as _dt
     from ..rules import durstub
     bad, n = [], 0
+    sig_bad, sig_seen = [], []
     try:
         w = durstub.World(m, cls)
         args_table = list(NEW_ARGS)
@@ -129,6 +130,17 @@ def _new_tabulate(ctx, m, fn, cls: str, absolute: bool) -> bool | None:
                 want["_native"] = rest_td
             else:
                 want["_native"] = _dt.timedelta(days=y * 365 + mo * 30) + rest_td
+            if not absolute:
+                # the arguments as given (read back by `DateTime + Duration`): every add() unit under its own name, milliseconds folded into the microseconds
+                sig_want = {u: kw.get(u, 0) for u in ("years", "months", "weeks", "days", "hours", "minutes", "seconds")}
+                sig_want["microseconds"] = kw.get("microseconds", 0) + kw.get("milliseconds", 0) * 1000
+                sig = f.get("_signature")
+                if not isinstance(sig, dict):
+                    sig_seen.append(None)
+                else:
+                    sig_seen.append(True)
+                    if sig != sig_want:
+                        sig_bad.append(f"{cls}({', '.join(f'{a}={v}' for a, v in kw.items())}): _signature={sig} (the arguments given: {sig_want})")
             for k, w_ in want.items():
                 g = f.get(k)
                 if g != w_ or (k != "_total" and k != "_native" and type(g) is not int):
@@ -140,6 +152,11 @@ def _new_tabulate(ctx, m, fn, cls: str, absolute: bool) -> bool | None:
            f"{n} argument tuples evaluated through the whole constructor: " + (f"wrong state: {bad[:3]}" if bad else
            "the native value is timedelta(args) with 365-day years and 30-day months; years/months kept; weeks/remaining_days/_days/_seconds/"
            "_microseconds are the digits of the rest with its sign, _total the rest in seconds"), m.loc(fn))
+    if not absolute and sig_seen and all(sig_seen):
+        ctx.ob("SIGNATURE.tabulated", f"{cls}.__new__", not sig_bad, f"{len(sig_seen)} argument tuples: " + (f"wrong: {sig_bad[:3]}" if sig_bad else
+               "_signature records every add() unit as given, the milliseconds folded into the microseconds"), m.loc(fn))
+        if not sig_bad:
+            ctx.established(("SIGNATURE",), "Duration.", "SIGNATURE.tabulated")
     return not bad
 
 
@@ -233,7 +250,12 @@ def _duration_new(ctx) -> None:
     # guards
     g = [n for n in core.body_no_doc(fn) if isinstance(n, ast.If) and isinstance(n.body[0], ast.Raise)]
     ok = len(g) >= 1 and nun(g[0].test) == "not isinstance(years, int) or not isinstance(months, int)" and "ValueError" in un(g[0].body[0])
-    ctx.ob("GUARD.int", "Duration.__new__/years-months", ok, "non-integer years/months must raise ValueError", m.loc(fn))
+    # the property quantifies over integer arguments: what the constructor does with a float number of years is outside it (that integers
+    # are accepted is decided on values by DIVMOD.tabulated) - the guard is recorded, its absence or another spelling is no violation
+    if ok:
+        ctx.ob("GUARD.int", "Duration.__new__/years-months", True, "non-integer years/months raise ValueError", m.loc(fn), nontrivial=False)
+    else:
+        ctx.unverified("GUARD.int", "Duration.__new__/years-months", "the guard against non-integer years / months is not in the form this rule reads (outside the property: integer arguments)", m.loc(fn))
     sig = a.get("_signature")
     if isinstance(sig, ast.Dict):
         d2 = {nun(k): can.s(v) for k, v in zip(sig.keys, sig.values)}
